@@ -156,6 +156,14 @@ func (ma *mountAnalysis) sliceElems(s ssa.Value, at ssa.Instruction, depth int) 
 		if cl.Is(ma.getTopics) {
 			return ma.rememberedFilters(depth + 1)
 		}
+		if cl.Static != nil && cl.Static.Pkg != nil && ma.c.P.IsModPkg(cl.Static.Pkg.Pkg) && depth < 10 {
+			st := mUnknown
+			for _, rv := range returnValues(cl.Static) {
+				ss, _ := ma.sliceElems(rv, nil, depth+1)
+				st = meet(st, ss)
+			}
+			return st, "elements of the slice returned by " + ma.c.fname(cl.Static)
+		}
 		if cl.Builtin() == "" && cl.Static == nil {
 			return mUnknown, "slice from call"
 		}
